@@ -188,18 +188,22 @@ def secpDecode (bs : List Nat) : Option (WPoint (Fp Params.secpP)) :=
 def edEncode (p : Fp Params.edP × Fp Params.edP) : List Nat :=
   natToLeBytes 32 (p.2.v + (p.1.v % 2) * 2 ^ 255)
 
-/-- `CompressedEdwardsY::decompress` (curve25519-dalek 4.1.3): the `y` bytes are reduced modulo
-`p` without a canonicity check, and a set sign bit with `x = 0` is not rejected. -/
-def edDecode (bs : List Nat) : Option (Fp Params.edP × Fp Params.edP) :=
+/-- `CompressedEdwardsY::decompress` (curve25519-dalek 4.1.3) over a generic modulus: the `y`
+bytes are reduced modulo `q` without a canonicity check, and a set sign bit with `x = 0` is not
+rejected. -/
+def edDecodeGen {q : Nat} (d : Fp q) (bs : List Nat) : Option (Fp q × Fp q) :=
   let n := leBytesToNat bs
   let sign := n / 2 ^ 255 % 2 == 1
-  let y : Fp Params.edP := ⟨n % 2 ^ 255 % Params.edP⟩
-  let d : Fp Params.edP := ⟨Params.edD⟩
+  let y : Fp q := ⟨n % 2 ^ 255 % q⟩
   let yy := y * y
   match ((yy - 1) * (d * yy + 1)⁻¹).sqrt with
   | none => none
   | some x0 =>
     let x := if x0.isOdd then -x0 else x0        -- non-negative root
     some (if sign then -x else x, y)
+
+/-- `Curve25519::from_bytes` / `Curve25519Affine::from_bytes`. -/
+def edDecode (bs : List Nat) : Option (Fp Params.edP × Fp Params.edP) :=
+  edDecodeGen (⟨Params.edD⟩ : Fp Params.edP) bs
 
 end MidnightZK.C11.Codec
